@@ -61,7 +61,7 @@ def run_cases(ctx, cases):
     b = [c for c in cases if c["kind"] == "bounds"]
     r = [c for c in cases if c["kind"] == "run"]
     ob = core.run_impl(IMPL, {"cases": b})["outs"]
-    orr = core.run_impl_sharded(IMPL, r, shard=len(r)) if r else []
+    orr = core.run_impl_sharded(IMPL, r, shard=len(r), timeout=3000) if r else []
     it_b, it_r = iter(ob), iter(orr)
     return [next(it_b) if c["kind"] == "bounds" else next(it_r) for c in cases]
 
